@@ -154,8 +154,8 @@ impl QoSController {
     }
 
     pub fn add_resource(&mut self, resource: ResourceStructure) {
-        self.number_of_resources += 1;
-        self.length += resource.len() as u16;
+        self.number_of_resources = self.number_of_resources.checked_add(1).unwrap();
+        self.length = self.length.checked_add(resource.len() as u16).unwrap();
         self.resource_structure.push(resource);
     }
 }
@@ -206,7 +206,7 @@ impl ResourceStructure {
 
         Self {
             resource_type,
-            length: length as u16,
+            length: u16::try_from(length).unwrap(),
             resource_flags,
             resource_id,
         }
